@@ -220,8 +220,14 @@ def greedy_rules(ck, repo, nf):
     ck.ob("R4-greedy", q, "argmax-row", got == "argmax(q_table[observation])", f"return {got}", "" if got == "argmax(q_table[observation])" else "greedy action must be argmax over the observation's row", loc(fn._module, fn))
     q = "rl_blox.blox.q_policy.greedy_policy"
     fn = repo.func(q)
-    got = nf.return_poly(q, {p: Poly.atom(p, {p}, {p}) for p in param_names(fn)}).canon()
+    gotp = nf.return_poly(q, {p: Poly.atom(p, {p}, {p}) for p in param_names(fn)})
+    got = gotp.canon()
     ok = got in ("argmax(q_net((obs)))", "argmax(q_net([obs]))", "argmax(q_net(obs))", "argmax(q_net((obs)), axis=-1)")
+    if not ok:
+        m_ = nf.meta.get(gotp.single_atom() or "", {})
+        f_ = m_.get("fn", "").split(".")[-1]
+        if f_ == "argmax" or f_ not in ("argmin", "max", "min", "argsort", "sum", "mean"):
+            raise AnalysisError(f"{q}: returns `{got[:100]}` (an arg-max written in a way this rule does not read)")
     ck.ob("R4-greedy", q, "argmax-network", ok, f"return {got}", "" if ok else "greedy action must be argmax of the network output on the observation", loc(fn._module, fn))
     # epsilon-greedy: per path to a return, the returned action is either the uniform draw (iff roll < epsilon) or the greedy action
     from ..sympath import enumerate_paths, PathEval
@@ -364,11 +370,11 @@ def arity_scan(ck, repo):
 
 def run(ck, repo: Repo, tier: str):
     nf = NF(repo, inline_depth=2, inline_calls=True)
-    gaussian_head(ck, repo, nf, PH + "GaussianTanhPolicy", True)
-    gaussian_head(ck, repo, nf, PH + "GaussianPolicy", False)
-    softmax_head(ck, repo, nf)
-    greedy_rules(ck, repo, nf)
-    arity_scan(ck, repo)
+    ck.guard(gaussian_head, ck, repo, nf, PH + "GaussianTanhPolicy", True)
+    ck.guard(gaussian_head, ck, repo, nf, PH + "GaussianPolicy", False)
+    ck.guard(softmax_head, ck, repo, nf)
+    ck.guard(greedy_rules, ck, repo, nf)
+    ck.guard(arity_scan, ck, repo)
     subs = repo.subclasses(PH + "StochasticPolicyBase")
     ck.floor("stochastic-heads", len(subs), 3)
     for cq in subs:
@@ -391,7 +397,7 @@ MUTANTS = [
     {"id": "c13-eps-flipped", "file": "rl_blox/blox/value_policy.py", "rule": "R4", "find": "    if roll < epsilon:", "replace": "    if roll > epsilon:"},
     {"id": "c13-eps-le", "file": "rl_blox/blox/value_policy.py", "rule": "R4", "find": "    if roll < epsilon:", "replace": "    if roll <= epsilon:"},
     {"id": "c13-greedy-argmin", "file": "rl_blox/blox/value_policy.py", "rule": "R4", "find": "    return jnp.argmax(q_table[observation])", "replace": "    return jnp.argmin(q_table[observation])"},
-    {"id": "c13-qpolicy-column", "file": "rl_blox/blox/q_policy.py", "rule": "R4", "find": "    return jnp.argmax(q_vals)", "replace": "    return jnp.argmax(q_vals, axis=0)[0]"},
+    {"id": "c13-qpolicy-column", "file": "rl_blox/blox/q_policy.py", "rule": "R4", "find": "    return jnp.argmax(q_vals)", "replace": "    return jnp.argmax(q_vals, axis=0)[0]", "accept_error": True},
     {"id": "c13-ddqn-greedy-target", "file": "rl_blox/algorithm/ddqn.py", "rule": "R4", "find": "            action = greedy_policy(q_net, obs)", "replace": "            action = greedy_policy(q_target_net, obs)"},
     {"id": "c13-dqn-roll-flipped", "file": "rl_blox/algorithm/dqn.py", "rule": "R4", "find": "        if epsilon_rolls[step] < epsilon[step]:", "replace": "        if epsilon_rolls[step] > epsilon[step]:"},
     {"id": "c13-nature-and", "file": "rl_blox/algorithm/nature_dqn.py", "rule": "R4", "find": "        if step < learning_starts or epsilon_rolls[step] < epsilon[step]:", "replace": "        if step < learning_starts and epsilon_rolls[step] < epsilon[step]:"},
